@@ -21,6 +21,8 @@ def make_dex(cases):
     seen = set()
     for cls, meth in cases:
         name = "L" + "/".join(conc(s) for s in cls) + ";"
+        if cls and cls[0] == "<raw>":            # a class_def whose type is not of the form L...; (the reader accepts it)
+            name = "/".join(conc(s) for s in cls[1:])
         if name in seen:
             continue
         seen.add(name)
@@ -127,6 +129,13 @@ def run(chk):
         # a containment test by string prefix would accept them
         batch = [(["..", "outside", "S"], ["m"]), (["a", "b", "..", "..", "..", "outer", "D"], ["m"]), (["..", "out2"], ["m"]), (["..", "out.bak", "x"], ["m"]),
                  (["..", "out", "inside"], ["m"]), (["..", "..", "sbx", "out", "again"], ["m"]), (["c"], ["..", "..", "outside", "m"])]
+        raw = make_dex(batch)
+        created, err = export(raw, os.path.join(work, "t"))
+        recs.append(dict(created=created, err=err or ""))
+        meta.append(batch)
+        # class_def types that are not wrapped in L...;
+        batch = [(["<raw>", "..", "..", "escaped", "Raw"], ["m"]), (["<raw>", "pkg", "..", "..", "..", "climb", "Raw2"], ["m"]), (["<raw>", "", "abs", "Raw3"], ["m"]),
+                 (["<raw>", "Raw4"], ["m"]), (["<raw>", "..", "Raw5;"], ["m"]), (["<raw>", "L..", "..", "Raw6"], ["m"]), (["<raw>", "[L..", "..", "Raw7;"], ["m"])]
         raw = make_dex(batch)
         created, err = export(raw, os.path.join(work, "t"))
         recs.append(dict(created=created, err=err or ""))
